@@ -998,6 +998,9 @@ func (mgr *Manager) ListTags() []TagInfo {
 	return <-c
 }
 
+// definitions of mark tags that UpdateTag may extend by appending ids
+var markDefinitionIsIDList = regexp.MustCompile(`^id:[0-9]+(,[0-9]+)*$`)
+
 func parseTagName(fullName string) (typ, name string, isMark bool) {
 	ok := false
 	typ, name, ok = strings.Cut(fullName, "/")
@@ -1389,8 +1392,17 @@ func (mgr *Manager) UpdateTag(name string, operation UpdateTagOperation) error {
 						}
 						if newTag.definition == "id:-1" {
 							newTag.definition = markQuery
-						} else {
+						} else if markDefinitionIsIDList.MatchString(newTag.definition) {
 							newTag.definition = fmt.Sprintf("%s,%s", newTag.definition, markQuery[3:])
+						} else {
+							// appending to anything but a plain list of ids changes its meaning
+							// (`id:1 id:2,3` is an AND): write the definition from the matches
+							b := strings.Builder{}
+							b.WriteString("id:")
+							for i := uint(0); newTag.Matches.Next(&i); i++ {
+								fmt.Fprintf(&b, "%d,", i)
+							}
+							newTag.definition = strings.TrimSuffix(b.String(), ",")
 						}
 					}
 				}
